@@ -164,6 +164,8 @@ class Ctx:
             f = match_finding(findings, v)
             if f is not None:
                 known_hit[f["id"]] = known_hit.get(f["id"], 0) + v.count
+                if os.environ.get("VERIF_SHOW_KNOWN"):  # debugging aid: which signatures a listed finding absorbed
+                    print(f"KNOWN-SIG {f['id']} {json.dumps(v.sig, sort_keys=True, default=str)}  # {v.what[:160]}")
                 continue
             counts[key] = v.count
             reported[key] = v
